@@ -323,7 +323,8 @@ def replaceFile (p : String) (c : Content) (t : Nat) : List File → List File
   | [] => [⟨p, c, t⟩]
   | f :: r => if f.path == p then ⟨p, c, t⟩ :: r else f :: replaceFile p c t r
 
-/-- `open(p, "w").write(c)` -/
+/-- `open(p, "w").write(c)`; the containing directory is not checked: the callers create it (`Write`) or the
+generated cases name existing directories only (converter stubs) -/
 def FS.write (fs : FS) (p : String) (c : Content) : FS :=
   { fs with files := replaceFile p c fs.clock fs.files, clock := fs.clock + 1 }
 
